@@ -1,7 +1,7 @@
 (* Property C12: standard containers behave as their abstract models under any operation sequence.
    Only the property theorems, each closed by [exact] of a lemma and followed by Print Assumptions. *)
 From Coq Require Import ZArith List Bool Lia Arith.
-From C12 Require Import Gen Model ProofsBase ProofsVec ProofsSeq ProofsAL ProofsHM1 ProofsHM2 ProofsHM3 ProofsHM4 ProofsHM5 ProofsHash.
+From C12 Require Import Gen Model ProofsBase ProofsVec ProofsSeq ProofsAL ProofsHM1 ProofsHM2 ProofsHM3 ProofsHM4 ProofsHM5 ProofsHash ProofsSB ProofsDL.
 Import ListNotations.
 
 (* ---- vector: every operation of a well-formed vector returns what the list operation returns, leaves a
@@ -143,6 +143,17 @@ Theorem C12_hashmap_rehash_preserves_bindings :
 Proof. exact hm_rehash_op. Qed.
 Print Assumptions C12_hashmap_rehash_preserves_bindings.
 
+(* the model-level Overflow outcome of rehash (usize wrap in roundpow2) needs more than 2^62 buckets *)
+Theorem C12_hashmap_overflow_only_beyond_2p62 :
+  forall (K V : Type) (kdflt : K) (vdflt : V) (keqb : K -> K -> bool) (khash : K -> Z),
+  (forall a, keqb a a = true) -> (forall a b, keqb a b = keqb b a) ->
+  (forall a b c, keqb a b = true -> keqb b c = true -> keqb a c = true) ->
+  forall (n : nat) (m : hmap K V), hm_inv K V keqb khash m ->
+  hm_rehash K V kdflt vdflt keqb khash n m = Trap TrapOverflow ->
+  (2 ^ 62 < Z.of_nat (Nat.max n (ceilidiv (hsize K V m * 100) HM_MAXLF_n)))%Z.
+Proof. exact hm_rehash_overflow_only_huge. Qed.
+Print Assumptions C12_hashmap_overflow_only_beyond_2p62.
+
 (* ---- hash.nelua: == keys hash alike *)
 Theorem C12_hash_coherent_float : forall a b : Z, f_eqb a b = true -> hash_float a = hash_float b.
 Proof. exact hash_float_coherent. Qed.
@@ -157,3 +168,79 @@ Theorem C12_hash_coherent_integer_boolean :
   (forall a b : bool, Bool.eqb a b = true -> hash_bool a = hash_bool b).
 Proof. split; [exact hash_int_coherent|exact hash_bool_coherent]. Qed.
 Print Assumptions C12_hash_coherent_integer_boolean.
+
+(* ---- stringbuilder: refinement to the byte string, for every operation used within its documented
+   protocol ([sb_op_ok]: at most the n prepared bytes are written before commit); [sb_wf] includes the NUL slot
+   (size < capacity, every byte from size on is zero) and capacity >= INIT_CAPACITY once allocated. *)
+Theorem C12_stringbuilder_step_refines_bytes : forall (o : bop) (b : sb), sb_wf b -> sb_op_ok o ->
+  match by_step o (sb_view b) with
+  | Ok (l', r) => exists b', sb_step o b = Ok (b', r) /\ sb_wf b' /\ sb_view b' = l'
+  | Trap t => sb_step o b = Trap t
+  end.
+Proof. exact sb_step_refines. Qed.
+Print Assumptions C12_stringbuilder_step_refines_bytes.
+
+Theorem C12_stringbuilder_history_refines_bytes : forall (ops : list bop) (b : sb), sb_wf b -> Forall sb_op_ok ops ->
+  match by_run ops (sb_view b) with
+  | Ok (l', rs) => exists b', sb_run ops b = Ok (b', rs) /\ sb_wf b' /\ sb_view b' = l'
+  | Trap t => sb_run ops b = Trap t
+  end.
+Proof. exact sb_run_refines. Qed.
+Print Assumptions C12_stringbuilder_history_refines_bytes.
+
+Theorem C12_stringbuilder_nul_slot : forall b : sb, sb_wf b -> sbdata b <> [] -> sb_nul_slot b = Some 0%Z.
+Proof. exact sb_nul_slot_zero. Qed.
+Print Assumptions C12_stringbuilder_nul_slot.
+
+(* the commit guard: the full-strength statement [sb_commit_guard_full] (committing more than the prepared span
+   is stopped) is FALSE on the unchanged code; the witness is replayed against the implementation on every
+   run (known finding); the strongest true restriction is proved. *)
+Theorem C12_stringbuilder_commit_guard_refuted : ~ sb_commit_guard_full.
+Proof. exact sb_commit_guard_refuted. Qed.
+Print Assumptions C12_stringbuilder_commit_guard_refuted.
+
+Theorem C12_stringbuilder_commit_guard_partial : forall (n d : nat) (b : sb), sb_wf b -> 0 < d ->
+  sb_step (BCommitOver n d) b = Trap TrapNoSpace.
+Proof. exact sb_commit_guard_partial. Qed.
+Print Assumptions C12_stringbuilder_commit_guard_partial.
+
+Theorem C12_stringbuilder_rollback_guard : forall (n : nat) (b : sb), sb_wf b -> sbsize b < n -> sb_rollback n b = Trap TrapNoSpace.
+Proof. exact sb_rollback_guard. Qed.
+Print Assumptions C12_stringbuilder_rollback_guard.
+
+(* ---- span: the bounds guards fire exactly when the index / range is invalid *)
+Theorem C12_span_guards : forall (T : Type) (i j : nat) (s : list T),
+  ((i < length s -> exists x, span_at T i s = Ok x /\ nth_error s i = Some x) /\
+   (length s <= i -> span_at T i s = Trap TrapIndex)) /\
+  ((i <= j /\ j <= length s -> span_sub T i j s = Ok (firstn (j - i) (skipn i s))) /\
+   (~ (i <= j /\ j <= length s) -> span_sub T i j s = Trap TrapIndex)).
+Proof. intros. split; [apply span_at_guard|apply span_sub_guard]. Qed.
+Print Assumptions C12_span_guards.
+
+(* ---- list (doubly linked): [dl_wf d idx]: idx lists the node indices front to back without repetition, every
+   listed node is alive and its prev/next pointers are exactly its neighbours in idx, front/back are the ends.
+   Every operation returns what the list operation returns (including the value of the node returned by
+   insert / following the erased node), preserves well-formedness and acts on the contents as the list operation;
+   popfront/popback on an empty list and erase(nilptr) are stopped by their checks; no dangling access. *)
+Theorem C12_list_step_refines_list : forall (T : Type) (dflt : T) (teqb : T -> T -> bool) (o : lop T) (d : dlist T) (idx : list nat),
+  dl_wf T d idx ->
+  match ll_step T teqb o (vals T dflt (larena T d) idx) with
+  | Ok (l', r) => exists d' idx', dl_step T teqb o d = Ok (d', r) /\ dl_wf T d' idx' /\ vals T dflt (larena T d') idx' = l'
+  | Trap t => dl_step T teqb o d = Trap t
+  end.
+Proof. exact dl_step_refines. Qed.
+Print Assumptions C12_list_step_refines_list.
+
+Theorem C12_list_history_refines_list : forall (T : Type) (dflt : T) (teqb : T -> T -> bool) (ops : list (lop T)) (d : dlist T) (idx : list nat),
+  dl_wf T d idx ->
+  match ll_run T teqb ops (vals T dflt (larena T d) idx) with
+  | Ok (l', rs) => exists d' idx', dl_run T teqb ops d = Ok (d', rs) /\ dl_wf T d' idx' /\ vals T dflt (larena T d') idx' = l'
+  | Trap t => dl_run T teqb ops d = Trap t
+  end.
+Proof. exact dl_run_refines. Qed.
+Print Assumptions C12_list_history_refines_list.
+
+Theorem C12_list_observers : forall (T : Type) (dflt : T) (d : dlist T) (idx : list nat),
+  dl_wf T d idx -> dl_contents T d = Ok (vals T dflt (larena T d) idx).
+Proof. exact dl_observed. Qed.
+Print Assumptions C12_list_observers.
